@@ -796,3 +796,211 @@ M("n29", "neutral", [], "stronger validator: volume_id additionally length-limit
                 raise ValueError("volume id too long")'''))
 M("n30", "neutral", [], "a new release type appended",
   (CO, '    "tus",\n    "e4s",\n]', '    "tus",\n    "e4s",\n    "lts",\n]'))
+
+# ---- second batch of neutral refactors (written after the seeded changes exposed exact-shape matching) --------
+M("n31", "neutral", [], "Rpms.add: locals renamed, setdefault chain in one statement",
+  (RP, '''        arches = self.rpms.setdefault(variant, {})
+        srpms = arches.setdefault(arch, {})
+        rpms = srpms.setdefault(srpm_nevra, {})
+        rpms[nevra] = {"sigkey": sigkey, "path": path, "category": category}''', '''        entries = self.rpms.setdefault(variant, {}).setdefault(arch, {}).setdefault(srpm_nevra, {})
+        record = {"sigkey": sigkey, "path": path, "category": category}
+        entries[nevra] = record'''))
+M("n32", "neutral", [], "ExtraFiles.add: record built in a local first",
+  (EF, '''        metadata = self.extra_files.setdefault(variant, {}).setdefault(arch, [])
+        metadata.append({"file": path, "size": size, "checksums": checksums})''', '''        entry = {"file": path, "size": size, "checksums": checksums}
+        self.extra_files.setdefault(variant, {}).setdefault(arch, []).append(entry)'''))
+M("n33", "neutral", [], "General.serialize: locals for release and tree",
+  (TI, '''        parser.set(self._section, "name", "%s %s" % (self._metadata.release.name, self._metadata.release.version))
+        parser.set(self._section, "family", self._metadata.release.name)
+        parser.set(self._section, "version", self._metadata.release.version)
+
+        parser.set(self._section, "arch", self._metadata.tree.arch)''', '''        release = self._metadata.release
+        tree = self._metadata.tree
+        parser.set(self._section, "name", "%s %s" % (release.name, release.version))
+        parser.set(self._section, "family", release.name)
+        parser.set(self._section, "version", release.version)
+
+        parser.set(self._section, "arch", tree.arch)'''))
+M("n34", "neutral", [], "compose accessor with inverted cache test",
+  (CP, '''        if self._images is not None:
+            return self._images
+
+        paths = [
+            "metadata/images.json",
+            "metadata/image-manifest.json",
+        ]
+        self._images = self._load_metadata(paths, productmd.images.Images)
+        return self._images''', '''        if self._images is None:
+            paths = [
+                "metadata/images.json",
+                "metadata/image-manifest.json",
+            ]
+            self._images = self._load_metadata(paths, productmd.images.Images)
+        return self._images'''))
+M("n35", "neutral", [], "parse_nvra strips len('.rpm') characters",
+  (CO, '        nvra = nvra[:-4]', '        nvra = nvra[:-len(".rpm")]'))
+M("n37", "neutral", [], "_relative_to with a named prefix",
+  (EF, '''    root = root.rstrip("/") + "/"
+    if path.startswith(root):
+        return path[len(root):]
+    return path''', '''    prefix = root.rstrip("/") + "/"
+    if not path.startswith(prefix):
+        return path
+    return path[len(prefix):]'''))
+M("n38", "neutral", [], "add_checksum with inverted membership test",
+  (IM, '''        if checksum_type in self.checksums:
+            if checksum_value and checksum_value != self.checksums[checksum_type]:
+                raise ValueError("Existing and added checksums do not match: %s vs %s" % (self.checksums[checksum_type], checksum_value))
+            return self.checksums[checksum_type]
+
+        self.checksums[checksum_type] = checksum_value
+        return checksum_value''', '''        if checksum_type not in self.checksums:
+            self.checksums[checksum_type] = checksum_value
+            return checksum_value
+
+        current = self.checksums[checksum_type]
+        if checksum_value and checksum_value != current:
+            raise ValueError("Existing and added checksums do not match: %s vs %s" % (current, checksum_value))
+        return current'''))
+M("n39", "neutral", [], "Checksums.add keeps the argument and uses a new local for the normalised path",
+  (TI, '''        relative_path = os.path.normpath(relative_path)
+        if not checksum_value:
+            absolute_path = os.path.join(root_dir, relative_path)
+            checksum_value = compute_checksum(absolute_path, checksum_type)
+        self.checksums[relative_path] = [checksum_type, checksum_value]''', '''        normalized = os.path.normpath(relative_path)
+        if not checksum_value:
+            checksum_value = compute_checksum(os.path.join(root_dir, normalized), checksum_type)
+        self.checksums[normalized] = [checksum_type, checksum_value]'''))
+M("n40", "neutral", [], "create_release_id with the ga test inverted",
+  (CO, '''    if type == "ga":
+        result = "%s-%s" % (short, version)
+    else:
+        result = "%s-%s-%s" % (short, version, type)''', '''    if type != "ga":
+        result = "%s-%s-%s" % (short, version, type)
+    else:
+        result = "%s-%s" % (short, version)'''))
+M("n41", "neutral", [], "composeinfo path writer with the loops swapped (category outer, arch inner)",
+  (CI, '''        paths = data
+        for arch in sorted(self._variant.arches):
+            for name in self._fields:
+                field = getattr(self, name)
+                value = field.get(arch, None)
+                if value:
+                    paths.setdefault(name, {})[arch] = value''', '''        paths = data
+        for name in self._fields:
+            field = getattr(self, name)
+            for arch in sorted(self._variant.arches):
+                value = field.get(arch, None)
+                if value:
+                    paths.setdefault(name, {})[arch] = value'''))
+M("n42", "neutral", [], "Images.serialize with items() loops",
+  (IM, '''        for variant in self.images:
+            for arch in self.images[variant]:
+                for image_obj in self.images[variant][arch]:
+                    images = data["payload"]["images"].setdefault(variant, {}).setdefault(arch, [])
+                    image_obj.serialize(images)
+                    images.sort(key=lambda x: x["path"])''', '''        for variant, arches in self.images.items():
+            for arch, cell in arches.items():
+                for image_obj in cell:
+                    images = data["payload"]["images"].setdefault(variant, {}).setdefault(arch, [])
+                    image_obj.serialize(images)
+                    images.sort(key=lambda x: x["path"])'''))
+M("n43", "neutral", [], "composeinfo Variant.serialize: child ids computed by a separate comprehension",
+  (CI, '''        variant_ids = set()
+        for variant in self.variants.values():
+            variant.serialize(data)
+            variant_ids.add(variant.id)
+        if variant_ids:
+            dump["variants"] = sorted(variant_ids)''', '''        for variant in self.variants.values():
+            variant.serialize(data)
+        variant_ids = set(variant.id for variant in self.variants.values())
+        if variant_ids:
+            dump["variants"] = sorted(variant_ids)'''))
+M("n44", "neutral", [], "Header.deserialize with an alias for the header section",
+  (CO, '''        data = parser
+        self.version = data[self._section]["version"]
+        if self.version_tuple >= (1, 1):
+            metadata_type = data[self._section]["type"]''', '''        header = parser[self._section]
+        self.version = header["version"]
+        if self.version_tuple >= (1, 1):
+            metadata_type = header["type"]'''))
+M("n45", "neutral", [], "Compose.type_suffix as a table lookup",
+  (CI, '''        if self.type == "production":
+            return ""
+        if self.type == "ci":
+            return ".ci"
+        if self.type == "nightly":
+            return ".n"
+        if self.type == "test":
+            return ".t"
+        if self.type == "development":
+            return ".d"
+        raise ValueError("Invalid compose type: %s" % self.type)''', '''        suffixes = {"production": "", "ci": ".ci", "nightly": ".n", "test": ".t", "development": ".d"}
+        if self.type not in suffixes:
+            raise ValueError("Invalid compose type: %s" % self.type)
+        return suffixes[self.type]'''))
+M("n46", "neutral", [], "Modules.add: metadata record built in a local",
+  (MO, '''        metadata["metadata"] = {
+            "uid": uid,
+            "name": name,
+            "stream": stream,
+            "version": version,
+            "context": context,
+            "koji_tag": koji_tag,
+        }''', '''        info = {
+            "uid": uid,
+            "name": name,
+            "stream": stream,
+            "version": version,
+            "context": context,
+            "koji_tag": koji_tag,
+        }
+        metadata["metadata"] = info'''))
+M("n47", "neutral", [], "treeinfo Variant.serialize: addon uids by comprehension",
+  (TI, '''        variant_uids = set()
+        for variant in self.variants.values():
+            variant.serialize(parser)
+            variant_uids.add(variant.uid)
+        if variant_uids:''', '''        for variant in self.variants.values():
+            variant.serialize(parser)
+        variant_uids = set(v.uid for v in self.variants.values())
+        if variant_uids:'''))
+M("n48", "neutral", [], "get_variants: filters merged into one condition",
+  (CI, '''            if types and variant.type not in types:
+                continue
+            if arch and arch not in variant.arches.union(["src"]):
+                continue
+            result.append(variant)''', '''            if (types and variant.type not in types) or (arch and arch not in variant.arches.union(["src"])):
+                continue
+            result.append(variant)'''))
+M("n49", "neutral", [], "Images.add: identity of the new image computed once before the scan",
+  (IM, '''            for checkvar in self.images:
+                for checkarch in self.images[checkvar]:
+                    for curimg in self.images[checkvar][checkarch]:
+                        if identify_image(curimg) == identify_image(image) and curimg.checksums != image.checksums:''', '''            new_identity = identify_image(image)
+            for checkvar in self.images:
+                for checkarch in self.images[checkvar]:
+                    for curimg in self.images[checkvar][checkarch]:
+                        if identify_image(curimg) == new_identity and curimg.checksums != image.checksums:'''))
+M("n50", "neutral", [], "DiscInfo.serialize: disc number line computed first",
+  (DI, '''        if self.disc_numbers == ["ALL"]:
+            lines.append("ALL")
+        else:
+            lines.append(",".join([str(i) for i in self.disc_numbers]))''', '''        if self.disc_numbers == ["ALL"]:
+            numbers = "ALL"
+        else:
+            numbers = ",".join([str(i) for i in self.disc_numbers])
+        lines.append(numbers)'''))
+M("n51", "neutral", [], "treeinfo Release.deserialize_1_0: short read through a conditional expression",
+  (TI, '''        if parser.has_option(self._section, "short"):
+            self.short = parser.get(self._section, "short")
+        else:
+            self.short = self.name''', '''        self.short = parser.get(self._section, "short") if parser.has_option(self._section, "short") else self.name'''))
+M("n52", "neutral", [], "MetadataBase.dump: parser obtained in one expression",
+  (CO, '''        parser = self._get_parser()
+        self.serialize(parser)
+        with open_file_obj(f, "w") as f:
+            self.build_file(parser, f)''', '''        document = self._get_parser()
+        self.serialize(document)
+        with open_file_obj(f, "w") as out:
+            self.build_file(document, out)'''))
